@@ -342,15 +342,13 @@ def funcCode (cf : Config) (body : S) : List Instr :=
      .j (.imm (cx.B + off_stack_overflow)), .halt]
    else []) ++ cS cx [] (prologueLen cf.checked) cf.w body
 
-def leBytes (w v : Nat) : List Nat := (List.range w).map (fun i => v / 256 ^ i % 256)
-
 /-- the state section `gen_lines` emits: `ap fp r0 r1 r2`, the stack, the entry frame (the return
-address of `@is_you` is `all_is_win`) -/
+address of `@is_you` is `all_is_win`); everything else is zero -/
 def initMem (cf : Config) (body : S) : Mem :=
   let w := cf.w
   let stackEnd := 5 * w + cf.stackWords * w + w
-  ⟨((leBytes w (5 * w) ++ leBytes w stackEnd ++ List.replicate (3 * w) 0 ++ List.replicate (cf.stackWords * w) 0
-      ++ leBytes w (funcLen cf.checked body + off_all_is_win)).map UInt8.ofNat).toArray⟩
+  (((⟨Array.replicate stackEnd 0⟩ : Mem).writeLE 0 w (5 * w)).writeLE w w stackEnd).writeLE (stackEnd - w) w
+    (funcLen cf.checked body + off_all_is_win)
 
 def coreProg (cf : Config) (body : S) : Prog :=
   { w := cf.w, code := (funcCode cf body ++ stdlibCode cf.w (funcLen cf.checked body)).toArray, const := ⟨#[]⟩ }
